@@ -7,7 +7,7 @@ CHECKER_MODULES = ["IsobarV.Props.C17", "IsobarV.Sched.Multi", "IsobarV.Props.C0
 THEOREMS = ["IsobarV.C17." + t for t in (
     "tolerant_never_raises", "tolerant_time_advances", "fault_propagates", "fault_contained_step",
     "callback_exception_swallowed", "callback_stop_ends_track", "fault_isolated",
-    "fault_isolated_run", "time_advances_over_the_run")] + ["IsobarV.C07.fault_isolated_run", "IsobarV.C07.run_is_merge", "IsobarV.Sched.soloTick_not_diverged"]
+    "fault_isolated_run", "time_advances_over_the_run", "schedule_under_free_name_adds", "schedule_under_free_name_independent")] + ["IsobarV.C07.fault_isolated_run", "IsobarV.C07.run_is_merge", "IsobarV.Sched.soloTick_not_diverged"]
 RULE = ("fault injection at pattern evaluation, Event construction, the device's note_on (per voice) / control / program_change, and "
         "inside action callbacks (exception, StopIteration, failing timeline call), with 1-5 healthy tracks in random order, both "
         "tolerance modes; (a) real Timeline vs Lean model; (b) differential oracle on the implementation alone: every healthy "
